@@ -1390,6 +1390,18 @@ func genFind(r *RNG) string {
 	}
 	if k > 0 && r.Chance(30) { // the tree is edited between two queries
 		line += fmt.Sprintf(" edit=%d", 1+r.Intn(3))
+	} else if r.Chance(10) && mode != "path" {
+		// a wide message: dozens of groups that do not hold the code in front of the one that does
+		var wide []*diam.AVP
+		for i, n := 0, 28+r.Intn(12); i < n; i++ {
+			g := &diam.GroupedAVP{}
+			if r.Bool() {
+				g.AVP = append(g.AVP, diam.NewAVP(3000777, 0, 0, datatype.Unsigned32(uint32(i))))
+			}
+			wide = append(wide, diam.NewAVP(grpCodes[r.Intn(len(grpCodes))], 0x40, 0, g))
+		}
+		as2 := append(wide, as...)
+		line = fmt.Sprintf("codec find d=default app=0 %s q=%s:%s", showAVPs(as2), mode, strings.Join(codes, "."))
 	} else if r.Chance(25) {
 		// the same grouped AVP twice: once more at the top level and once more inside a new group
 		for _, a := range as {
